@@ -13,7 +13,8 @@
 EXTENDS Naturals, Sequences, FiniteSets, TLC, Json, IOUtils
 CONSTANTS Export, MaxLen
 Ops == {"okcall", "unknownroute", "undecodable", "handlerpanic", "callclosed", "pushclosed",
-        "proxyok", "proxybackenddown", "proxypushbackenddown", "proxycut", "authreject", "overloadreject", "securemismatch"}
+        "proxyok", "proxybackenddown", "proxypushbackenddown", "proxycut", "authreject", "overloadreject", "securemismatch",
+        "latepre", "userstatus"}
 VARIABLES hist
 Init == hist = <<>>
 Step(o) == Len(hist) < MaxLen /\ hist' = Append(hist, o)
